@@ -447,6 +447,7 @@ func isolationSig(r *run) string {
 // Run executes the case.
 func Run(c *Case) *vkit.Outcome {
 	o := &vkit.Outcome{}
+	storekit.SetVariant(vkit.HashOf(c))
 	r := &run{c: c, o: o, ctx: context.Background(), bind: map[eventbus.Offset]int{eventbus.OffsetOldest: 0}, saved: map[string]eventbus.Offset{}}
 	switch c.Store {
 	case "sqlite":
